@@ -191,6 +191,28 @@ CLAIMED["C20"] = dict(
     technique="TLA+ specification (Client) model-checked with TLC; TLC-generated behaviours replayed into the library client against a scripted peer",
     design="6 C20")
 
+# additions of rounds 7 and 8 (DESIGN.md section 0.6), appended to the level texts
+ADDED = {
+    "C01": " API publishers overwrite their message object after Server.Publish returns.",
+    "C02": " QosStraySpec: two exchanges released in any order with stray PUBREC/PUBCOMP/PUBACK/SUBACK/UNSUBACK packets carrying the identifier of an open exchange; one payload per identifier in Q2ManySpec.",
+    "C03": " Codec mode edits: AddTopic/RemoveTopic at any position of the filter list of a decoded or API-built SUBSCRIBE/UNSUBSCRIBE (4,912 edit sequences), Len/Encode and the accessors against the specification's list.",
+    "C04": " For every input that is exactly one frame, verdict, byte count and fields must not depend on the bytes that follow it in the slice; n never exceeds the frame the header announces; truncations with a re-computed header.",
+    "C05": " Attacker kind pre-remlen-five-bytes (harness processes run under a 16 GB address-space limit: an input that makes the library ask for more ends the child, which is the observation 'the broker process died'); HalfSpec: a subscriber whose direction broker->client is dead (Broker!BreakOut) among live ones, all paths.",
+    "C07": " SubsBigSpec (requests of 130 entries: the SUBACK's length field has two bytes); requests with a filter rejected below a level it shares with accepted ones in SubsLastSpec.",
+    "C08": " RetDupLastSpec: retained messages stored from QoS 1 deliveries with DUP and equal identifiers, all paths + probe subscription.",
+    "C09": " Replay mode 'CONNECT and the packet the connection sends next in one write'.",
+    "C10": " Replay mode 'CONNECT and the next packet in one write'.",
+    "C11": " Refusal kinds iddel/idhigh/idctl1f (identifier bytes next to 0x20..0x7e) and remlen5; anonymous CONNECTs whose stored form crosses a length-field boundary; replay mode 'CONNECT and the next packet in one write'.",
+    "C14": " Recorded runs of a real broker (enq hook of writeMessage against the stream the peer reads) validated against OutStreamTrace.",
+    "C15": " RingEdge!WakeCases: every committing call (Write, WriteCommit, ReadCommit, Read) against every kind of waiter held between its test of the cursor and its Wait.",
+    "C16": " Ending 'edge': a packet one fixed header over what the broker takes, cut two bytes short.",
+    "C17": " Q2ManySpec replayed in an order-only mode: a connection never receives a message published before the one it received last (more than 16 exchanges open, wrapped queue).",
+    "C19": " Kind backlog (30,000 PINGREQs on offer for 1.4 K while the client reads nothing); deaf clients (never read; with a feeder their outgoing ring is full and a delivery waits on it); named deviation DevStalledReceiver = known finding stalled-receiver.",
+    "C20": " ClientConn specification: Connect over all histories (<= 3-4 steps) of one client identifier; InStraySpec: inbound QoS 2 exchanges with stray acknowledgements of colliding identifiers; the replayer overwrites the message object after every client call returns.",
+}
+for _pid, _t in ADDED.items():
+    CLAIMED[_pid]["text"] += _t
+
 NOT_APPLICABLE = {
     "C18": "data-race freedom is a property of individual memory accesses under the Go memory model; a TLA+ specification "
            "observes actions, not loads and stores, and could only be bound to the code by hand-placed annotations (DESIGN.md section 7)",
